@@ -203,6 +203,16 @@ func SignHashed(rand io.Reader, priv, e []byte) (r, s []byte, err error) {
 			continue
 		}
 
+		// k must lie in [1, n-1]: the all-zero candidate is rejected as well (k = 0 gives r = e and s = -r*d/(1+d),
+		// from which the private key follows)
+		var kAcc byte
+		for _, b := range K {
+			kAcc |= b
+		}
+		if kAcc == 0 {
+			continue
+		}
+
 		var kG *internal.SM2Point
 		KK := K[:]
 		kG, err = internal.ScalarBaseMult(KK)
